@@ -30,6 +30,11 @@ def run(ctx) -> None:
         ctx.guard("C06.wiring", wiring, dev)
         ctx.guard("C06.iteration-space", iteration_space, dev)
         ctx.guard("C06.never-too-large", never_too_large, dev)
+        # every step of the split list that is pipetted gets its A and its D record (exactly the steps with v > 0)
+        from . import c01
+
+        for meth, track, kind in (("aspirate", "remove", "A"), ("dispense", "add", "D")):
+            ctx.reuse("C06.iteration-space", c01.pair_ad, dev, meth, track, kind)
     ctx.reuse("C06.wiring", c16.override_set)
     ctx.reuse("C06.step-guard", c03.step_guard_validator)
     ctx.reuse("C06.step-guard", c03.step_guard_wiring)
@@ -38,6 +43,10 @@ def run(ctx) -> None:
     ctx.reuse("C06.step-guard", c02.no_swallow)
     ctx.guard("C06.partition", partition_volume)
     ctx.guard("C06.multi-disp", multi_disp)
+    # ... and the volume the reduction was computed from is the volume the record carries (multi_disp * <printed volume>)
+    from . import c09
+
+    ctx.reuse("C06.multi-disp", c09.r_slots)
     ctx.guard("C06.config", config)
     from .common import class_state_rule
 
@@ -162,8 +171,49 @@ def _vol_lists(ctx, dev, rule):
     return t, out
 
 
+def keyed_by_wells(ctx, dev, rule: str) -> bool:
+    """Per-step data (the split lists of a volume) kept in a dict whose keys are well IDs / (source, destination) pairs: a well or
+    pair that is listed more than once in one call shares one entry - its steps, its volume or its count are those of the last
+    occurrence only.  -> True when such a dict was found (and refuted)."""
+    from .c07 import transfer_structure
+
+    t = transfer_structure(ctx, dev, rule)
+    fv, f = t.fv, t.f
+    hit = False
+    for n in fv.cfg.nodes:
+        if n.kind != "stmt" or n.ast is None:
+            continue
+        for sub in own_walk(n.ast):
+            if not isinstance(sub, ast.DictComp):
+                continue
+            term = fv.res.resolve(sub, n.id)
+            if not (is_sym(term, "comp") and len(term.args) >= 3):
+                continue
+            # §comp('DictComp', key, value, gen...) - find elements of the well arguments in the key and the volumes in the value
+            keyt = term.args[1]
+            rest = list(term.args[2:])
+            def bases(e):
+                out = set()
+                for x in ast.walk(e):
+                    if is_sym(x, "elem") and len(x.args) >= 2:
+                        b = strip_norm(x.args[1])
+                        for y in ast.walk(b):
+                            if isinstance(y, ast.Name):
+                                out.add(y.id)
+                return out
+            kb = bases(keyt)
+            vb = set().union(*[bases(r_) for r_ in rest]) if rest else set()
+            if kb & {"source_wells", "destination_wells"} and ("volumes" in vb or any(isinstance(x, ast.Call) and call_fname(x) == "partition_volume" for r_ in rest for x in ast.walk(r_))):
+                hit = True
+                ctx.rep.refuted(rule, f"{dev.name}.transfer/keyed-by-wells", f"`{show(sub)[:70]}` keeps the step data of a transfer in a dict keyed by well IDs ({sorted(kb & {'source_wells', 'destination_wells'})}): a well / "
+                                "pair that is listed more than once shares one entry, so its steps (and the counted LVH steps) are those of its last occurrence only", where=f.where(sub))
+    return hit
+
+
 def wiring(ctx, dev) -> None:
     rule = "C06.wiring"
+    if keyed_by_wells(ctx, dev, rule):
+        return
     t, cands = _vol_lists(ctx, dev, rule)
     fv, f = t.fv, t.f
     cb = f"{dev.name}.transfer"
